@@ -181,5 +181,19 @@ def runV (fixed : Bool) (cfg : Config) : World → List Op → Option (World × 
 
 def run := runV true
 
+/-! ## a tracer disabled by the provider's `ScopeConfigurator` (tracer.cc:57-59)
+
+`Tracer::StartSpan` of a tracer whose `TracerConfig` is not enabled hands the call to the API's `NoopTracer`
+(noop.h): the answer is a `NoopSpan` over `SpanContext(false, false)`, whatever the options say; neither the id
+generator nor the sampler is consulted and the runtime context is not touched.  Kept outside `Op` / `step`: the
+theorems over programs are about enabled tracers. -/
+
+/-- the span a disabled tracer answers -/
+def noopStarted : Started := ⟨SpanContext.invalid, zeroSpanId, false, SpanContext.invalid, ⟨.drop, none⟩⟩
+
+/-- `StartSpan` on a disabled tracer, thread `t`, parent given as `p`: `none` = malformed parent reference -/
+def startDisabled (w : World) (t : Nat) (p : ParentSpec) : Option (World × Obs) :=
+  (resolveSpec w t p).map fun _ => ({ w with spans := w.spans ++ [noopStarted] }, .started noopStarted)
+
 end Tracer
 end Otel
